@@ -1288,6 +1288,13 @@ def process_template(template_path, emitter=None):
                 build_block(Source.get(rel), selector, block_rx, opts, sections, emitter)
             else:
                 build_fn(Source.get(rel), selector, opts, sections, emitter, None)
+        elif s.startswith("//@consts "):
+            # every named top-level `const` of the file (so that code which starts using a new constant still extracts)
+            rel = s.split()[1]
+            src_ = Source.get(rel)
+            for cm in re.finditer(r"(?m)^(?:pub(?:\([a-z]+\))?\s+)?const\s+([A-Za-z][A-Za-z0-9_]*)\s*:", src_.masked):
+                if src_.depth[cm.start()] == 0:
+                    build_item(src_, "const", cm.group(1), {}, emitter)
         elif s.startswith("//@item "):
             toks = s.split()
             rel, kind = toks[1], toks[2]
